@@ -1,7 +1,7 @@
 import ast
 
 from sa.engine.index import norm
-from sa.selftest.harness import delete_stmt, find_node, find_stmt, insert_before, replace_node, sub_in_node, variant
+from sa.selftest.harness import delete_stmt, find_node, find_stmt, insert_before, replace_node, replace_nodes, sub_in_node, variant
 
 TR = "pynguin.instrumentation.transformer"
 V10 = "pynguin.instrumentation.version.python3_10"
@@ -78,3 +78,45 @@ def _v9(repo, mod):
 def _v10(repo, mod):
     fn = repo.func(TR, "AstInfo._in_cover")
     return insert_before(mod, fn.body[-1], "_unused = lineno")
+
+
+@variant("C08", "scope-names-lose-outer-prefix", TR, "C08.lines", "nested scopes are named without their outermost prefix (seed C08-c)")
+def _vl1(repo, mod):
+    fn = repo.func(TR, "ModuleAstInfo._get_scope_names")
+    c = find_node(fn, lambda n: isinstance(n, ast.Call) and norm(n.func) == "cls._get_scope_names")
+    return replace_node(mod, c.args[1], "node_scope_name")
+
+
+@variant("C08", "finally-lines-from-handlers-first", TR, "C08.lines", "_try_finally_lines looks at the handlers before the else block (seed C08-d)")
+def _vl2(repo, mod):
+    fn = repo.func(TR, "AstInfo._try_finally_lines")
+    a, b = fn.body[-3], fn.body[-2]
+    return replace_nodes(mod, [(a, mod.segment(b)), (b, mod.segment(a))])
+
+
+@variant("C08", "scope-by-def-line", TR, "C08.lines", "scopes are looked up by the line of the def keyword (decorated definitions are never found)")
+def _vl3(repo, mod):
+    fn = repo.func(TR, "ModuleAstInfo.get_scope")
+    c = find_node(fn, lambda n: isinstance(n, ast.Call) and norm(n.func) == "self._first_line")
+    return replace_node(mod, c, "scope_line_range(scope)[0]")
+
+
+@variant("C08", "else-if-read-as-elif", TR, "C08.lines", "an else block with a single if counts as elif again")
+def _vl4(repo, mod):
+    fn = repo.func(TR, "_has_elif_block")
+    c = find_node(fn, lambda n: isinstance(n, ast.Compare) and "col_offset" in norm(n))
+    return replace_node(mod, c, "True")
+
+
+@variant("C08", "cdg-keeps-jumps-on-excluded-lines", TR, "C08.lines", "the covered CDG no longer looks at the line of the jump")
+def _vl5(repo, mod):
+    fn = repo.func(TR, "InstrumentationTransformer._create_covered_cdg")
+    c = find_node(fn, lambda n: isinstance(n, ast.Call) and norm(n) == "ast_info.should_cover_line(last_instr.lineno)")
+    return replace_node(mod, c, "True")
+
+
+@variant("C08", "while-else-marker-ignored", TR, "C08.lines", "else lines of loops are not consulted")
+def _vl6(repo, mod):
+    fn = repo.func(TR, "AstInfo.should_cover_line")
+    c = find_node(fn, lambda n: isinstance(n, ast.Call) and norm(n) == "self._else_lines(branch_node)")
+    return replace_node(mod, c, "()")
